@@ -27,11 +27,11 @@ class C19(Harness):
     op = 'pgp'
     crates = ('control',)
     fuel = 60000
-    bounds = {'quick': {'headers': 2, 'payload_lines': 3, 'signature_lines': 2, 'line_chars': 2, 'note': 'truncate/junk families: headers<=1, payload_lines<=2, signature_lines<=1, line_chars<=1'},
+    bounds = {'quick': {'headers': 2, 'payload_lines': 2, 'signature_lines': 2, 'line_chars': 2, 'note': 'truncate/junk families: headers<=1, payload_lines<=2, signature_lines<=1, line_chars<=1'},
               'thorough': {'headers': 3, 'payload_lines': 4, 'signature_lines': 3, 'line_chars': 3}}
     assumptions = ['wrapped message = marker LF, H header lines, empty line, P payload lines, BEGIN SIGNATURE, S signature lines, END SIGNATURE; every line LF-terminated',
                    'header and signature lines: 1..n symbolic characters, no LF/CR; a signature line is never the end marker (lengths differ)',
-                   'payload lines: 0..n symbolic characters (no LF; CR allowed), first character not "-"; plus look-alike lines = BEGIN SIGNATURE marker with its first character replaced by a symbolic non-dash character',
+                   'payload lines: 0..n symbolic characters (no LF; CR allowed), first character not "-"; plus look-alike lines = BEGIN SIGNATURE marker with its first character replaced by, or preceded by, a symbolic non-dash character; signature look-alikes = END SIGNATURE marker followed or preceded by one symbolic character',
                    'truncation after every whole line k>=1; one appended junk line of 0..n characters',
                    'unsigned text: free text up to 3 characters, and the signed-message marker with one (symbolically chosen) character replaced']
 
@@ -54,10 +54,18 @@ class C19(Harness):
         headers = [gen_line(e, 'h', n, cond=nocr, minlen=1) for _ in range(H)]
         payload = []
         for i in range(P):
-            if e.choose('pk', 2) == 0: payload.append(gen_line(e, 'p', n, first_cond=lambda c: c != 45))
+            pk = e.choose('pk', 3)
+            if pk == 0: payload.append(gen_line(e, 'p', n, first_cond=lambda c: c != 45))
             else:
-                c = e.fresh_char('pl'); e.assume(z3.And(c != 10, c != 45)); payload.append([c] + o(BSIG[1:]))
-        sig = [gen_line(e, 's', n, cond=nocr, minlen=1) for _ in range(S_)]
+                c = e.fresh_char('pl'); e.assume(z3.And(c != 10, c != 45))
+                payload.append([c] + o(BSIG[1:]) if pk == 1 else [c] + o(BSIG))      # marker with its first character replaced / marker preceded by one character
+        sig = []
+        for _ in range(S_):
+            sk = e.choose('sk', 3)
+            if sk == 0: sig.append(gen_line(e, 's', n, cond=nocr, minlen=1))
+            else:
+                c = e.fresh_char('sl'); e.assume(z3.And(c != 10, c != 13))
+                sig.append(o(ESIG) + [c] if sk == 1 else [c] + o(ESIG))               # end marker followed / preceded by one character
         lines = [o(BEGIN)] + headers + [[]] + payload + [o(BSIG)] + sig + [o(ESIG)]
         phases = ['marker'] + ['header'] * H + ['blank'] + ['payload'] * P + ['bsig'] + ['sig'] * S_ + ['esig']
         return lines, phases, payload, sig
